@@ -236,13 +236,20 @@ class Printer:
 
     def _posarg(self, v, off):
         st = self.style
+        def zeros(text):
+            # redundant leading zeros of the whole part of a decimal (02.5, -007.0)
+            if st.flip():
+                sign, body = ("-", text[1:]) if text.startswith("-") else ("", text)
+                return sign + "0" * st.r.randint(1, 2) + body
+            return text
+
         if off:
             s = f"{v}.5"
             if st.flip():
                 s += "0" * st.r.randint(1, 2)
-            return s
+            return zeros(s)
         if st.flip():
-            return f"{v}.0"
+            return zeros(f"{v}.0")
         return st.integer(v)
 
     def arglist(self, ps):
